@@ -1054,6 +1054,16 @@ func (fr *Frame) sourceNames(st *State, v ssa.Value) []string {
 }
 
 func (fr *Frame) siteRecv(st *State, x *ssa.UnOp, v TV) {
+	// ghost: number of values taken from each channel by this thread (what `recvd(ch)` reads)
+	if ch, ok := fr.val(st, x.X).(TV); ok && ch.Sort == SInt {
+		fr.run.countRecv(st, ch.S, "1")
+	}
+}
+
+func (r *Run) countRecv(st *State, ch string, by string) {
+	name := r.eng.regHeap("GH_recv", "(Array Int Int)", types.Typ[types.Int])
+	h := r.heapGet(st, name)
+	r.heapSet(st, name, app("store", h, ch, app("+", app("select", h, ch), by)))
 }
 
 func (fr *Frame) selectOp(st *State, x *ssa.Select) {
@@ -1083,6 +1093,14 @@ func (fr *Frame) selectOp(st *State, x *ssa.Select) {
 				name := r.eng.regHeap("GH_ctxdone", "(Array Iface Bool)", nil)
 				h := r.heapGet(st, name)
 				r.heapSet(st, name, app("store", h, ctx, or(app("select", h, ctx), eq(idx.S, num(int64(i))))))
+			}
+		}
+	}
+	// a receive case that fires takes one value from its channel
+	for i, sc := range x.States {
+		if sc.Dir == types.RecvOnly {
+			if ch, ok := fr.val(st, sc.Chan).(TV); ok && ch.Sort == SInt {
+				r.countRecv(st, ch.S, ite(eq(idx.S, num(int64(i))), "1", "0"))
 			}
 		}
 	}
